@@ -555,8 +555,21 @@ example : LWit Obj acc (LacksKey "a" vsM) False (.union [.opt .str, .int]) (fiel
     optimize cfgX (g0X.eqEnv oX.str) 6 (.union [.opt .str, .int]) = .ok (.opt (.union [.int, .str])) := by
   constructor
   · simp [LWit, LWitAll, vsM, LacksKey, fieldVals]
-  · simp [optimize, optimizeUnion, splitMembers, Ty.isInt, Ty.isFloat, Ty.isStr, Ty.isUnknown,
+  · simp [optimize, optimizeUnion, splitMembers, splitMembersAux, Ty.size, Ty.isInt, Ty.isFloat, Ty.isStr,
+      Ty.isUnknown,
       Ty.isNull, bind, Except.bind, pure, Except.pure, mkUnionMembers, flattenUnion, handleType, hashStr, cfgX]
+
+/-- the same with a union HIDDEN under the `DOptional` member (D21: the split now splices its members, so `str`
+    reaches the pseudo-type stage and `int` meets the other `int`): `Union[Optional[Union[str, int]], int]` is laxly
+    witnessed by `vsM`, and `optimize_type` turns it into `Optional[Union[int, str]]` -/
+example : LWit Obj acc (LacksKey "a" vsM) False (.union [.opt (.union [.str, .int]), .int]) (fieldVals "a" vsM) ∧
+    optimize cfgX (g0X.eqEnv oX.str) 6 (.union [.opt (.union [.str, .int]), .int]) =
+      .ok (.opt (.union [.int, .str])) := by
+  constructor
+  · simp [LWit, LWitAll, vsM, LacksKey, fieldVals]
+  · simp [optimize, optimizeUnion, splitMembers, splitMembersAux, Ty.size, Ty.sizeList, Ty.isInt, Ty.isFloat,
+      Ty.isStr, Ty.isUnknown, Ty.isNull, bind, Except.bind, pure, Except.pure, mkUnionMembers, flattenUnion,
+      handleType, hashStr, cfgX]
 
 end J2M.C02R
 
